@@ -38,8 +38,11 @@ type Roles struct {
 	Families                                             []*Family
 	Server                                               *types.Named
 	Router                                               *ssa.Function
-	Handlers                                             []*ssa.Function // functions of the root package taking an http.ResponseWriter
-	APIMethods                                           map[string]map[string]bool
+	// Dispatch is the function that matches the request path and picks the handler: the router itself, or the routing
+	// step it calls (`s.route(method, path)`)
+	Dispatch   *ssa.Function
+	Handlers   []*ssa.Function // functions of the root package taking an http.ResponseWriter
+	APIMethods map[string]map[string]bool
 }
 
 func LookupNamed(pk *types.Package, name string) *types.Named {
@@ -354,6 +357,38 @@ func Resolve(p *core.Prog) *Roles {
 		}
 		if hasRespWriterParam(fn) {
 			r.Handlers = append(r.Handlers, fn)
+		}
+	}
+	r.Dispatch = r.Router
+	if r.Router != nil {
+		matches := func(f *ssa.Function) int {
+			n := 0
+			an.Calls(f, func(call ssa.CallInstruction) {
+				sc := call.Common().StaticCallee()
+				if sc == nil || sc.Pkg == nil || sc.Pkg.Pkg.Path() != r.RootPath {
+					return
+				}
+				res := sc.Signature.Results()
+				if res.Len() == 2 {
+					if _, isSl := res.At(0).Type().Underlying().(*types.Slice); isSl {
+						if b, ok := res.At(1).Type().Underlying().(*types.Basic); ok && b.Kind() == types.Bool {
+							n++
+						}
+					}
+				}
+			})
+			return n
+		}
+		if matches(r.Router) == 0 {
+			an.Calls(r.Router, func(call ssa.CallInstruction) {
+				sc := call.Common().StaticCallee()
+				if sc == nil || sc == r.Router || sc.Signature.Recv() == nil || an.NamedOf(an.Deref(sc.Signature.Recv().Type())) != r.Server {
+					return
+				}
+				if matches(sc) > 0 && (r.Dispatch == r.Router || matches(sc) > matches(r.Dispatch)) {
+					r.Dispatch = sc
+				}
+			})
 		}
 	}
 	return r
